@@ -38,7 +38,7 @@ pub fn sign(f: &[&str]) -> String {
         let cfg = if f[2] == "d" { DkimConfig::default_config(s(f[5])?, s(f[6])?, key) } else { DkimConfig::new(s(f[5])?, s(f[6])?, key, names, canon) };
         let mut b = lettre::Message::builder()
             .from("Alice <a@x.example>".parse().unwrap())
-            .to("b@y.example".parse().unwrap())
+            .to(match f.get(12) { Some(t) => s(t)?.parse().map_err(|e| format!("to: {e}"))?, None => "b@y.example".parse().unwrap() })
             .subject(s(f[7])?)
             .date(std::time::UNIX_EPOCH + std::time::Duration::from_secs(1_700_000_000));
         if f[8] != "!" { b = b.header(XA(s(f[8])?)); }
@@ -80,7 +80,11 @@ pub fn resign(f: &[&str]) -> String {
             .date(std::time::UNIX_EPOCH + std::time::Duration::from_secs(1_700_000_000)).body(unhex(f[5])).map_err(|e| format!("build: {e}"))?;
         m.sign(&cfg1);
         let first = m.formatted();
-        let mut m2 = if f[6] == "1" { m.clone() } else { m };
+        let mut m2 = if f[6] == "1" || f[6] == "3" { m.clone() } else { m };
+        if f[6] == "2" || f[6] == "3" {
+            // a signed field is changed before the message is signed again
+            m2.headers_mut().insert_raw(HeaderValue::new(HeaderName::new_from_ascii_str("Subject"), "changed after the first signature".to_string()));
+        }
         m2.sign(&cfg2);
         Ok(format!("ok\t{}\t{}", hex(&first), hex(&m2.formatted())))
     })();
